@@ -283,6 +283,66 @@ theorem finalise_second_call (c : Conf) (hc : confOk c = true) (r : List Rule)
   rw [finalise_store, finalise_some, hid]
   simp
 
+
+/-! ## C03 — "reported as routed" means the exact share is on the route -/
+
+/-- **C03 (Gateway provider)** `EnsureRoutes` reports *verified* for a weight step only when the
+    stored HTTPRoute already carries exactly that step's split: in every rule that targets the stable
+    Service the stable ref has weight `100 - w` and the canary ref weight `w`.  Every route, every
+    weight. -/
+theorem verified_means_share_exact (c : Conf) (hc : confOk c = true) (rules : List Rule) (s : Step)
+    (w : Int) (hw : s.weight = some w) (hms : s.ms = []) (hw1 : w ≠ -1)
+    (h : (ensureRoutes c (some rules) s).ret = true) :
+    (ensureRoutes c (some rules) s).store = some rules ∧ shareExact c w rules = true := by
+  obtain ⟨out, hb, _⟩ := weight_step c hc rules w hw1
+  have hcall : ensureRoutes c (some rules) s =
+      if rules == out then { ret := true, err := "ok", store := some rules }
+      else { ret := false, err := "ok", store := some out } := by
+    simp only [ensureRoutes, hw, hms, hb]
+  rw [hcall] at h ⊢
+  by_cases he : (rules == out) = true
+  · have heq : rules = out := by simpa using he
+    simp only [he, if_true, true_and]
+    subst heq
+    unfold shareExact
+    rw [List.all_eq_true]
+    intro r hr
+    cases hs : hasSvc r.refs c.stable with
+    | false => simp
+    | true =>
+      obtain ⟨i, hi⟩ := List.getElem?_of_mem hr
+      obtain ⟨r', hr', h1, h2⟩ := weight_step_split c hc rules rules w hb hw1 i r hi hs
+      rw [hi] at hr'
+      cases hr'
+      simp [h1, h2]
+  · simp [he] at h
+
+/-- the oracle evaluated by the driver holds of the model's own `EnsureRoutes` -/
+theorem model_verifiedMeansExact (c : Conf) (hc : confOk c = true) (rules : List Rule) (s : Step) :
+    verifiedMeansExact c s.weight s.ms (ensureRoutes c (some rules) s).ret (ensureRoutes c (some rules) s).err
+      (((ensureRoutes c (some rules) s).store).getD []) = true := by
+  unfold verifiedMeansExact
+  cases hw : s.weight with
+  | none => rfl
+  | some w =>
+    simp only
+    cases hr : (ensureRoutes c (some rules) s).ret with
+    | false => simp
+    | true =>
+      by_cases hms : s.ms = []
+      · by_cases hw1 : w = -1
+        · simp [hw1]
+        · obtain ⟨hst, hex⟩ := verified_means_share_exact c hc rules s w hw hms hw1 hr
+          simp [hst, hex]
+      · have : s.ms.isEmpty = false := by
+          cases hm : s.ms with
+          | nil => exact absurd hm hms
+          | cons _ _ => rfl
+        simp [this]
+
+example : shareExact ⟨"web", "web-canary"⟩ 20
+    [{ mts := [], filters := "", refs := [⟨some "Service", "web", some 80, ""⟩, ⟨some "Service", "web-canary", some 20, ""⟩] }] = true := by decide
+
 /-! ## no panic -/
 
 /-- the builder panics only for a step that has neither a weight nor matches
